@@ -149,34 +149,6 @@ fn host_right_pipe(rule: &str) -> bool {
             _ => false,
         }
 }
-/// `||h^` with the request host ending in `h` in the middle of a label (and anchored earlier)
-fn suffix_mid_label(rule: &str, host: &str) -> bool {
-    let sp = split(rule);
-    if sp.left != 2 {
-        return false;
-    }
-    let core = sp.body.to_ascii_lowercase();
-    let cut = host_cut(&core);
-    let h = core[..cut].trim_start_matches("www.");
-    let rest = &core[cut..];
-    let bare = (rest == "^" && !sp.right) || (rest.is_empty() && sp.right);
-    if !bare || h.is_empty() || !host.ends_with(h) {
-        return false;
-    }
-    let o = host.len() - h.len();
-    !(o == 0 || h.starts_with('.') || host.as_bytes()[o - 1] == b'.')
-}
-
-/// `||WWW.host`: "www." is stripped case-sensitively, before lower-casing
-fn www_strip_case(rule: &str) -> bool {
-    let sp = split(rule);
-    if sp.left != 2 {
-        return false;
-    }
-    let raw = &sp.body[..host_cut(sp.body)];
-    raw.trim_start_matches("www.").to_ascii_lowercase() != raw.to_ascii_lowercase().trim_start_matches("www.")
-}
-
 // ------------------------------------------------------------------ generators
 const FHOSTS: &[&str] = &[
     "ads.net", "net", "ads", ".net", "ads.", ".ads", "xads.net", "ads.net.ads.net", "s.net", "ds.net", "foo.com", "com", "foo",
@@ -264,9 +236,10 @@ fn rule_line(r: &mut Rng) -> String {
     }
 }
 fn url_line(r: &mut Rng, rule: &str) -> String {
-    match r.below(6) {
+    match r.below(7) {
         0 | 1 => gen::url_for(r, rule),
         2 => gen::url(r).replace("ws://", "http://").replace("wss://", "https://"),
+        3 => format!("{}://{}{}{}", r.pick(&["https", "http"]), r.pick(&["u@", "u:p@", "foo.com@", "t:s@"]), req_host(r), r.pick(PATHS)),
         _ => format!("{}://{}{}", r.pick(&["https", "http"]), req_host(r), r.pick(PATHS)),
     }
 }
@@ -286,8 +259,12 @@ struct Eval {
     regex_ok: bool,
     regex_lens: Vec<usize>,
 }
+/// offset of the host in the URL: after "://" and the credentials (independent of the crate's
+/// get_url_after_anchor: the authority ends at the first '/', '?' or '#')
 fn host_start(req: &Request) -> Option<usize> {
-    let i = req.url.find("://")? + 3;
+    let a = req.url.find("://")? + 3;
+    let end = req.url[a..].find(|c| c == '/' || c == '?' || c == '#').map(|i| a + i).unwrap_or(req.url.len());
+    let i = req.url[a..end].rfind('@').map(|k| a + k + 1).unwrap_or(a);
     if req.url[i..].starts_with(req.hostname.as_str()) && !req.hostname.is_empty() {
         Some(i)
     } else {
@@ -387,12 +364,6 @@ fn oracle(sm: &mut Summary, stats: &mut std::collections::BTreeMap<String, u64>,
         sm.failure(Some("F22_host_right_pipe"), &what, replay);
     } else if degenerate(rule) {
         *stats.entry("oracle_degenerate_disagreements".into()).or_insert(0) += 1;
-    } else if www_strip_case(rule) {
-        sm.failure(Some("C02_www_strip_case"), &what, replay);
-    } else if suffix_mid_label(rule, &e.host) {
-        sm.failure(Some("C02_suffix_mid_label"), &what, replay);
-    } else if e.url_lc.find(e.host.as_str()) != Some(hs) && split(rule).left == 2 {
-        sm.failure(Some("C02_host_in_url_prefix"), &what, replay);
     } else {
         sm.failure(None, &what, replay);
     }
@@ -453,8 +424,6 @@ fn sweep(sm: &mut Summary, stats: &mut std::collections::BTreeMap<String, u64>, 
                     let replay = json!({"rule": rule, "url": u});
                     if f22 {
                         sm.failure(Some("F22_host_right_pipe"), &what, replay);
-                    } else if suffix_mid_label(&rule, &r.hostname) {
-                        sm.failure(Some("C02_suffix_mid_label"), &what, replay);
                     } else {
                         sm.failure(None, &what, replay);
                     }
@@ -478,8 +447,8 @@ fn replay(v: &Value, path: &std::path::Path) -> i32 {
         Ok(e) => {
             let want = e.hs.and_then(|hs| reference(rule, e.url_lc.as_bytes(), e.host.as_bytes(), hs)).map(|w| w && scheme_ok(e.mask, &e.url));
             println!(
-                "rule {:?} url {:?} host {:?}: mask {:#x} filter {:?} hostname {:?}; matches = {}, ABP semantics = {:?}; F22 class {}, suffix-mid-label class {}, www-strip-case class {}, degenerate {}",
-                rule, e.url, e.host, e.mask, e.filter, e.hostname, e.matches, want, host_right_pipe(rule), suffix_mid_label(rule, &e.host), www_strip_case(rule), degenerate(rule)
+                "rule {:?} url {:?} host {:?}: mask {:#x} filter {:?} hostname {:?}; matches = {}, ABP semantics = {:?}; F22 class {}, degenerate {}",
+                rule, e.url, e.host, e.mask, e.filter, e.hostname, e.matches, want, host_right_pipe(rule), degenerate(rule)
             );
             if want.is_some() && want != Some(e.matches) {
                 println!("VIOLATION property=C02 replay={}", path.display());
@@ -503,13 +472,17 @@ fn main() {
     let mut ostats: std::collections::BTreeMap<String, u64> = Default::default();
     sm.rule = "A: (filter host, request host) pairs built to collide (label-aligned suffixes/prefixes, infixes, leading/trailing dots, repeated hosts) x wildcard x at_hostname_end; non-trivial = the filter host occurs in the request host. B: filter texts from the pattern grammar incl. degenerate spellings x anchors; non-trivial = contains '^', '*' or an escaped character. C: option-free rule lines (grammar of DESIGN.md 3.4 + ||host^, ||host|, ||host*x, |scheme:// forms, /re/) x URLs built from the rule or from the host universe; non-trivial = the crate's check_pattern returned true or the rule is hostname-anchored with an occurrence of its host in the request host".into();
 
-    // known finding witnesses (kept in every run so that the classes stay exercised)
+    // witnesses of the known finding F22 (so that the class stays exercised) and of the three
+    // findings repaired in /repo (a regression is a plain violation), plus credentials in the URL
     for (rule, url) in [
         ("||ads.net|", "https://foo.com.ads.net/ad.foo"),
         ("|http://|", "http://x.com/foo"),
         ("||ads.net^", "https://ads.net.xads.net/x"),
         ("||t/x", "https://t/x"),
         ("||WWW.ads.net^", "https://ads.net/x"),
+        ("||foo.com/x", "https://foo.com@foo.com/x"),
+        ("||foo.com/x", "https://u:p@foo.com/x?a@b"),
+        ("||p.com^x", "http://p.com/x"),
     ] {
         if let Ok(e) = eval(rule, url) {
             oracle(&mut sm, &mut ostats, rule, url, &e);
@@ -535,7 +508,9 @@ fn main() {
         }
         cs.case(expr, json!({"what": "anchored_hostname_end", "filter_hostname": fh, "hostname": host, "wildcard": w, "at_hostname_end": e, "impl": got}), occ);
         // get_url_after_anchor on a URL carrying that host
-        let url = format!("{}://{}{}", r.pick(&["https", "http"]), host, r.pick(PATHS)).to_ascii_lowercase();
+        let cred = r.pick(&["", "", "", "u@", "u:p@", "ads.net@", "t@"]);
+        let url = format!("{}://{}{}{}", r.pick(&["https", "http", "https", "s", ""]), cred, host, r.pick(PATHS)).to_ascii_lowercase();
+        let url = if r.chance(1, 12) { url.replace("://", ":") } else { url };
         let ae = match got {
             Some(k) if r.chance(3, 4) => k,
             _ => r.below(host.len() + 1),
@@ -562,16 +537,24 @@ fn main() {
             if r.chance(1, 30) {
                 t.clear();
             }
+            if k > 1 && r.chance(1, 5) {
+                t.push_str(r.pick(&["\\", "\\o", "\\d"]));
+            }
             parts.push(t);
         }
         let la = r.chance(1, 2);
         let ra = r.chance(1, 3);
         let refs: Vec<&str> = parts.iter().map(|s| s.as_str()).collect();
         let text = adblock::verif_hooks::compile_regex_text(&refs, ra, la, false);
+        // does the regex crate compile each member on its own? (asked through the same hook)
+        let oks: Vec<bool> = refs.iter().map(|p| adblock::verif_hooks::compile_regex_text(&[*p], ra, la, false) != "ERROR").collect();
         let expr = format!(
             "str_eqb (compiled_text (compile_regex {} {} {} false) {}) {}",
-            cstrs(&parts), cbool(ra), cbool(la), cbool(text != "ERROR"), hxs(&text)
+            cstrs(&parts), cbool(ra), cbool(la), clist(&oks, |b| cbool(*b).to_string()), hxs(&text)
         );
+        if oks.iter().any(|b| !*b) && k > 1 {
+            cs.stat("B_set_with_uncompilable_member");
+        }
         let nt = parts.iter().any(|p| p.contains('^') || p.contains('*') || p.contains('.') || p.contains('?'));
         cs.stat(if text == "ERROR" { "B_regex_rejected" } else { "B_regex_text" });
         cs.case(expr, json!({"what": "compile_regex_text", "filters": parts, "right": ra, "left": la, "impl": text}), nt);
@@ -601,7 +584,7 @@ fn main() {
         for _ in 0..a.scale.min(1) {
             let text = adblock::verif_hooks::compile_regex_text(&[t], false, false, true);
             let expr = format!(
-                "str_eqb (compiled_text (compile_regex {} false false true) {}) {}",
+                "str_eqb (compiled_text (compile_regex {} false false true) [{}]) {}",
                 cstrs(&[t.to_string()]), cbool(text != "ERROR"), hxs(&text)
             );
             cs.case(expr, json!({"what": "compile_regex_text(complete)", "filter": t, "impl": text}), true);
